@@ -1,10 +1,18 @@
 import P2PVerif.Model.Addr
+import P2PVerif.Model.AddrSpec
 import P2PVerif.Lemmas.Addr
 /-! # C16 — every address a swarm produces survives marshal and parse
 Property theorems only, about `Model/Addr.lean`. `net/netip` and `fmt.Sscan` enter through `Env`; the laws
-assumed of them (`EnvOK`) are stated below and are checked against the standard library by the harness on
-every run (the canonical text of a parsed IP parses to itself and contains no newline or bracket; scanning
-the decimal text of a 16-bit number yields it). -/
+assumed of them (`EnvOK`, in `Model/AddrSpec.lean`) are checked against the standard library by the harness on
+every run (the canonical text of a parsed IP parses to itself, is non-empty and contains no newline or bracket;
+scanning the decimal text of a 16-bit number yields it).
+
+Two corrections were made to the statements as first written; both originals are refuted by machine-checked
+counterexamples in `Lemmas/AddrCounterexample.lean`:
+* `IPOK` (in `EnvOK` and `Valid`) now also says the canonical IP text is non-empty: sshswarm's regular expression
+  requires a non-empty host, so with an `Env` whose canonical text may be empty `parse_marshal` was false.
+* `parse_total_or_canonical` now assumes `GramOK g` (the continuation of a scheme table is a scheme table): the
+  `Gram` type also contains `mcons name g ssh` and the like, for which `parse` returns a non-multiswarm address. -/
 namespace P2PVerif.C16
 open P2PVerif P2PVerif.Addr
 
@@ -16,11 +24,49 @@ theorem parse_marshal (env : Env) (henv : EnvOK env) (g : Gram) (a : Addr.Addr) 
     parse env g (marshal a) = some a :=
   Addr.parse_marshal env henv g a hv hf
 
-/-- ⊢ parsing arbitrary text either fails or yields an address of that swarm which is valid and marshals to
-    text that parses back to the same address. -/
-theorem parse_total_or_canonical (env : Env) (henv : EnvOK env) (g : Gram) (t : Str) (a : Addr.Addr)
-    (h : parse env g t = some a) :
+/-- ⊢ parsing arbitrary text with a well-formed swarm stack either fails or yields an address of that swarm
+    which is valid and marshals to text that parses back to the same address.
+
+    Original statement (false, see `Counterexample.original_parse_total_or_canonical_false`):
+    `theorem parse_total_or_canonical (env : Env) (henv : EnvOK env) (g : Gram) (t : Str) (a : Addr.Addr)
+        (h : parse env g t = some a) : Valid env a ∧ Fits g a ∧ parse env g (marshal a) = some a` -/
+theorem parse_total_or_canonical (env : Env) (henv : EnvOK env) (g : Gram) (hg : GramOK g) (t : Str)
+    (a : Addr.Addr) (h : parse env g t = some a) :
     Valid env a ∧ Fits g a ∧ parse env g (marshal a) = some a :=
-  Addr.parse_total_or_canonical env henv g t a h
+  Addr.parse_total_or_canonical env henv g hg t a h
+
+/-! ## non-vacuity: a concrete standard-library stand-in satisfying the laws, and concrete round trips -/
+
+/-- three canonical IP texts (one needing brackets because of ':' and '%'), ports by `parseUint16` -/
+def demoEnv : Env :=
+  { ipParse := fun t =>
+      if t = "1.2.3.4".toList ∨ t = "::1".toList ∨ t = "fe80::1%eth0".toList then some t else none
+    scan16 := parseUint16 }
+
+example : EnvOK demoEnv where
+  ip_out := by
+    intro t ip h
+    simp only [demoEnv] at h
+    split at h
+    · rename_i hc
+      simp only [Option.some.injEq] at h; subst h
+      rcases hc with rfl | rfl | rfl <;> exact ⟨by decide, by decide, by decide, by decide, by decide⟩
+    · simp at h
+  scan_nat := parseUint16_natStr
+  scan_lt := parseUint16_lt
+
+def demoGram : Gram := .mcons "mem".toList .mem (.mcons "udp".toList (.idAt .udp) .mnil)
+
+/-- `udp://<id>@1.2.3.4:80` -/
+example : parse demoEnv demoGram
+    (marshal (.scheme "udp".toList (.idAt (List.replicate 32 7) (.udp "1.2.3.4".toList 80)))) =
+    some (.scheme "udp".toList (.idAt (List.replicate 32 7) (.udp "1.2.3.4".toList 80))) := by decide
+
+/-- `udp://<id>@[fe80::1%eth0]:65535` (bracketed host) -/
+example : parse demoEnv demoGram
+    (marshal (.scheme "udp".toList (.idAt (List.replicate 32 255) (.udp "fe80::1%eth0".toList 65535)))) =
+    some (.scheme "udp".toList (.idAt (List.replicate 32 255) (.udp "fe80::1%eth0".toList 65535))) := by decide
+
+example : marshal (.udp "::1".toList 9) = "[::1]:9".toList := by decide
 
 end P2PVerif.C16
